@@ -14,6 +14,15 @@ Theorem C02_scan_next_all :
 Proof. exact scan_next_all. Qed.
 Print Assumptions C02_scan_next_all.
 
+(* ... and AFTER_LAST followed by repeated PREV returns the exact reverse *)
+Theorem C02_scan_prev_all :
+  forall (K V : Type) (IDXNUM : nat), 1 <= IDXNUM ->
+  forall (c : chain K V) (cur0 : cursor) (fuel : nat),
+    ids_unique K V c -> nonempty_nodes K V c -> length (flat K V c) < fuel ->
+    scan_prev K V IDXNUM fuel c (snd (cursor_to K V IDXNUM c cur0 CAfterLast)) = rev (flat K V c).
+Proof. exact scan_prev_all. Qed.
+Print Assumptions C02_scan_prev_all.
+
 (* EQ positions on the given key or reports not-found - for every chain satisfying the invariant of C01, every comparator
    that is a total preorder, and whatever the cursor did before (cur is arbitrary) *)
 Theorem C02_cursor_eq_spec :
@@ -30,7 +39,7 @@ Theorem C02_cursor_eq_spec :
 Proof. exact cursor_eq_spec. Qed.
 Print Assumptions C02_cursor_eq_spec.
 
-(* PARTIAL: the reverse scan (AFTER_LAST, PREV), the GE positioning and the positioned read/write operations are in
+(* PARTIAL: the GE positioning and the positioned read/write operations are in
    the model (KV/Cursor.v: cursor_to, cursor_to_key, cursor_read; KV/Inst.v: db_cset, db_cdel) and are tied to the
    implementation by the correspondence check, but no theorem about them is proved here. *)
 
